@@ -403,8 +403,18 @@ SCHEMES = {
 G_CHOICES = [1.0, 4 * math.pi ** 2, 0.9, 6.674e-11, 2.959122082855911e-04]
 
 
+PRELUDE_SCHEMES = ["whfast:jacobi", "whfast:democraticheliocentric", "whfast:whds", "whfast:barycentric", "saba",
+                   "ias15", "leapfrog", "mercurius", "trace"]
+prelude_item = st.tuples(st.sampled_from(PRELUDE_SCHEMES), st.integers(1, 3),
+                         st.sampled_from([0.01, 0.02, 0.05, -0.02]), st.sampled_from([1, 0]))
+# history of the SAME simulation before the measured step: k steps of other schemes / coordinate systems
+prelude = st.one_of(st.just([]), st.lists(prelude_item, min_size=1, max_size=3))
+
+
 def step_case(schemes, g_choices, w512=False):
     extra = {}
+    if not w512:
+        extra["prelude"] = prelude
     if w512:
         # WHFast512: step in units of min(T_q, 5 P_|a|), T_q = 2pi sqrt(q^3/mu) the pericentre time scale (KEY_512);
         # lane: which of the 8 vector lanes carries the planet under test (the others carry massless fillers on
@@ -422,6 +432,40 @@ def step_case(schemes, g_choices, w512=False):
     })
 
 
+def _configure(sim, sch, safe_mode):
+    """What a user switching integrators on a live simulation does: select the integrator and its options,
+    re-select the basic gravity routine (WHFast/SABA/MERCURIUS/TRACE leave their own selected; REBOUND warns
+    otherwise) and ask for coordinates to be recalculated."""
+    if sim.gravity != "basic":
+        sim.gravity = "basic"
+    if sch.startswith("whfast:"):
+        sim.integrator = "whfast"
+        sim.ri_whfast.coordinates = sch.split(":")[1]
+        sim.ri_whfast.safe_mode = safe_mode
+        sim.ri_whfast.recalculate_coordinates_this_timestep = 1
+    elif sch == "saba":
+        sim.integrator = "saba"
+        sim.ri_saba.type = "1"
+        sim.ri_saba.safe_mode = safe_mode
+        sim.ri_whfast.coordinates = "jacobi"
+        sim.ri_whfast.recalculate_coordinates_this_timestep = 1
+    elif sch == "mercurius":
+        sim.integrator = "mercurius"
+        sim.ri_mercurius.safe_mode = safe_mode
+        sim.ri_mercurius.recalculate_coordinates_this_timestep = 1
+        sim.ri_mercurius.recalculate_r_crit_this_timestep = 1
+    elif sch == "trace":
+        sim.integrator = "trace"
+        sim.ri_trace.S_peri = "none"
+    elif sch == "whfast512":
+        sim.integrator = "whfast512"
+        sim.exact_finish_time = 0
+    elif sch in ("ias15", "leapfrog"):
+        sim.integrator = sch
+    else:
+        raise ValueError(sch)
+
+
 def _step_call(a):
     import warnings
     import rebound
@@ -431,23 +475,20 @@ def _step_call(a):
     for p in a["particles"]:
         sim.add(m=p[6], x=p[0], y=p[1], z=p[2], vx=p[3], vy=p[4], vz=p[5])
     sch = a["scheme"]
-    if sch.startswith("whfast:"):
-        sim.integrator = "whfast"
-        sim.ri_whfast.coordinates = sch.split(":")[1]
-        sim.ri_whfast.safe_mode = a["safe_mode"]
-    elif sch == "saba":
-        sim.integrator = "saba"
-        sim.ri_saba.type = "1"
-        sim.ri_saba.safe_mode = a["safe_mode"]
-    elif sch == "mercurius":
-        sim.integrator = "mercurius"
-        sim.ri_mercurius.safe_mode = a["safe_mode"]
-    elif sch == "trace":
-        sim.integrator = "trace"
-        sim.ri_trace.S_peri = "none"
-    elif sch == "whfast512":
-        sim.integrator = "whfast512"
-        sim.exact_finish_time = 0
+    for psch, k, frac, sm in a.get("prelude", []):
+        _configure(sim, psch, sm)
+        sim.dt = frac * a["P"]
+        try:
+            sim.steps(k)
+        except (rebound.Escape, rebound.Encounter, rebound.Collision):
+            pass
+        sim.synchronize()
+    _configure(sim, sch, a["safe_mode"])
+    pre = []
+    for i in range(sim.N):
+        p = sim.particles[i]
+        pre.append((p.x, p.y, p.z, p.vx, p.vy, p.vz))
+    t0 = sim.t
     sim.dt = a["dt"]
     sim.step()
     enc = 0
@@ -460,7 +501,7 @@ def _step_call(a):
     for i in range(sim.N):
         p = sim.particles[i]
         out.append((p.x, p.y, p.z, p.vx, p.vy, p.vz))
-    return out, sim.t, enc
+    return out, sim.t, enc, pre, t0
 
 
 PAD_R3 = 1.0e6       # WHFast512 pads unused lanes with particles at r ~ 100 (length units of the simulation)
